@@ -128,6 +128,9 @@ type Config struct {
 	// decided by evaluation (one path, no forking); for debugging.
 	Guide []string
 	TraceIf io.Writer
+	// JobBudget: wall-clock limit for exploring one job (0 = none); when it is
+	// exceeded the exploration stops and is reported as truncated.
+	JobBudget time.Duration
 	// Args are the concrete int64 arguments passed to the harness entry.
 	Args []int64
 }
